@@ -88,13 +88,13 @@ PP = ["lib/src/protocol/proxy_protocol/header.rs", "lib/src/protocol/proxy_proto
 EX = ["lib/src/protocol/proxy_protocol/expect.rs"] + PP
 _win = "window model: v4 upgrades exactly when 28 bytes are in, v6 at 52 (window 28 then 52); socket reads never go past the header; addresses recorded == header's; metrics.bin == bytes read"
 REGISTRY["C18"] = {
-    "technique": "bounded model checking (Kani/CBMC, SAT) of the PROXY v2 codec, nom parser and ExpectProxyProtocol::readable over a scripted socket",
+    "technique": "bounded model checking (Kani/CBMC, SAT) of the PROXY v2 codec, nom parser and ExpectProxyProtocol::readable over a scripted socket; symbolic execution of the MIR of the four Pipe relay handlers into SMT (z3 + cvc5) for the would-block readiness protocol",
     "level_text": "CBMC decides, for all IPv4/IPv6 addresses, ports and payload bytes, that HeaderV2::into_bytes emits the exact v2 wire layout and parse_v2_header inverts it; that the parser is total on every input up to 60 bytes (no panic, exact consumption, error classes); and that ExpectProxyProtocol::readable over an in-memory socket upgrades at exactly the header end for the listed fragmentations, closes on malformed input and records the header's addresses. Bounded, not a proof.",
     "level_note": "Fragmentations are enumerated concretely (chunk sizes per wake-up), header control bytes concrete, address and payload bytes symbolic; Pipe/splice relay, send-mode socket loop and relay mode are outside the claim.",
     "rule": "C18: one harness per codec direction / parser bound / fragmentation scenario.",
     "trusted_base": ["scripted in-memory SocketHandler (returns Continue when the slice was filled, else WouldBlock) stands in for the kernel socket"],
     "assumptions": ["SocketHandler::socket_read never returns more than the slice it was given (readable()'s own debug_assert)"],
-    "residual": "Pipe (both directions, half-close ordering, back-pressure), splice, SendProxyProtocol::back_writable socket loop, RelayProxyProtocol, fragmentations other than the enumerated ones, PROXY v1 (unused).",
+    "residual": "Pipe byte movement (buffer fill/consume, half-close ordering, back-pressure beyond the would-block readiness protocol), splice, SendProxyProtocol::back_writable socket loop, RelayProxyProtocol, fragmentations other than the enumerated ones, PROXY v1 (unused).",
     "obligations": [
         K("c18::c18_ppv2_roundtrip_v4", "all IPv4 src/dst addresses and ports, both commands; unwind 17",
           "into_bytes == spec layout byte for byte (sig, ver|cmd, 0x11, len 12, addrs, ports), len()==28, parse_v2_header(into_bytes(h)) == (empty rest, h)", PP),
@@ -122,6 +122,7 @@ REGISTRY["C18"] = {
           "bytes pulled from the socket == header length (payload is not consumed and dropped)", EX, cbmc_args=FS256),
         K("c18::c18_expect_no_overread_inet_tlv", "36-byte INET header with 8-byte TLV tail + payload in one segment",
           "bytes pulled from the socket == header length", EX, cbmc_args=FS256),
+        M("c18_pipe_wouldblock_readiness", "Pipe::readable / writable / backend_readable / backend_writable (buffered path), loops unrolled once, socket I/O and buffers uninterpreted, Ready bit algebra exact", "a handler that saw WouldBlock and returns has cleared the event bit of that side and direction; on the write side it has not dropped the WRITABLE interest (pending bytes stay scheduled) and the event bit is cleared only on a would-block", ["lib/src/protocol/pipe.rs", "lib/src/socket.rs", "command/src/ready.rs"], prop="c18m", which="wouldblock"),
     ],
 }
 
